@@ -96,7 +96,8 @@ def judge(mab, cfg, ln, prog, conts, model, acc=None, key=None):
                 acc.skip("generator identities changed by queries and policy is randomised: not comparable")
             return []
         calls = ("predict_expectations",)
-    qs = [None] if cf else [[[0, 0], [1, 1], [2, 2]], [[1, 1]]]
+    # context-free bandits accept contexts of any width (only the row count matters): observe with none, 3 and 1 columns
+    qs = [None, [[0, 0, 0], [1, 1, 1]], [[5]]] if cf else [[[0, 0], [1, 1], [2, 2]], [[1, 1]]]
     msgs = []
     if len(calls) == 2 and canon.digest(subject) == canon.digest(twin):
         # complete object graphs identical (generator positions were aligned): every future coincides
